@@ -110,6 +110,7 @@ type VC struct {
 	recSpecMap map[string]*recSpec
 	retTerms   []Term
 	knownTerms map[*KnownFinding]Term
+	recDecl    map[string]string // define-fun-rec line -> declare-fun line
 }
 
 func newVC(eng *Engine, name string, c *Contract) *VC {
@@ -150,14 +151,65 @@ func (vc *VC) define(prefix string, t Term) Term {
 	return Term{n, t.Sort}
 }
 
+// assert adds an assumption; top-level conjunctions are split into separate
+// assertions so that relevance filtering (lightQuery) works per conjunct.
 func (vc *VC) assert(t Term) {
 	if t.IsTrue() {
+		return
+	}
+	if strings.HasPrefix(t.S, "(and ") {
+		for _, a := range sexpArgs(t.S) {
+			vc.assert(Term{a, SBool})
+		}
 		return
 	}
 	vc.emit("(assert " + t.S + ")")
 }
 
-func (vc *VC) assume(st *State, t Term) { vc.assert(implies(st.reach, t)) }
+func (vc *VC) assume(st *State, t Term) {
+	if strings.HasPrefix(t.S, "(and ") {
+		for _, a := range sexpArgs(t.S) {
+			vc.assume(st, Term{a, SBool})
+		}
+		return
+	}
+	vc.assert(implies(st.reach, t))
+}
+
+// sexpArgs returns the top-level arguments of "(op a1 a2 ...)".
+func sexpArgs(s string) []string {
+	s = s[1 : len(s)-1]
+	i := strings.IndexByte(s, ' ')
+	if i < 0 {
+		return nil
+	}
+	s = s[i+1:]
+	var out []string
+	d, start := 0, 0
+	for j := 0; j < len(s); j++ {
+		switch s[j] {
+		case '(':
+			d++
+		case ')':
+			d--
+		case '"':
+			// skip string literal
+			for j++; j < len(s) && s[j] != '"'; j++ {
+			}
+		case ' ':
+			if d == 0 {
+				if j > start {
+					out = append(out, s[start:j])
+				}
+				start = j + 1
+			}
+		}
+	}
+	if start < len(s) {
+		out = append(out, s[start:])
+	}
+	return out
+}
 
 func (vc *VC) note(s string) { vc.assumed[s] = true }
 
